@@ -300,6 +300,18 @@ def r_slot_fresh(F, V):
                             p2, b2, s2 = bad_sites[0]
                             R.violation("%s|InsertSlot.%s" % (p2, carried[0]), b2, "the control byte an InsertSlot carries to insert_in_slot (field `%s`) is not loaded from ctrl(index) where the slot is built in %s: the insertion is accounted against a made-up tag, so growth_left drifts" % (carried[0], p2), line=line_of(b2, stmt=s2))
                         ok = True
+        if not ok:
+            # record_item_insert_at written out in place: growth_left -= special_is_empty(<byte loaded from ctrl(slot.index)>)
+            for i2, k2, s2 in b.stmts():
+                if s2["k"] == "assign" and (last_field(s2["p"]) or {}).get("name") == "growth_left":
+                    S2 = sources(b, rv_operands(s2["rv"])[0]) if s2["rv"]["k"] == "use" else None
+                    allS = [sources(b, o) for o in rv_operands(s2["rv"])] + [sources(b, {"k": "copy", "p": {"l": o["p"]["l"]}}) for o in rv_operands(s2["rv"]) if o["k"] in ("copy", "move") and not o["p"].get("proj")]
+                    for Sx in allS:
+                        for c_, lst_ in Sx.calls.items():
+                            if c_.endswith("Tag::special_is_empty"):
+                                for bb_, t_ in lst_:
+                                    if any(sources(b, a_).has_call("RawTableInner::ctrl") for a_ in t_["args"]):
+                                        ok = True
         if ok:
             R.inst("raw::RawTable::insert_in_slot|old_ctrl", "old control byte is loaded from ctrl(slot.index) at insert time (remove-then-reinsert re-accounts growth_left)", "ok", True, where(b))
         else:
